@@ -14,7 +14,7 @@ def do_uninstall(log: str) -> None:
     for line in open(log, encoding='utf-8'):
         if line.startswith('#'):
             continue
-        fname = line.strip()
+        fname = line.rstrip('\n')
         try:
             if os.path.isdir(fname) and not os.path.islink(fname):
                 os.rmdir(fname)
